@@ -29,6 +29,15 @@ CHECKS = {
              "compares with a tag parse of expand() output; extracted spec and model compared with the implementation.",
         technique="Coq proof by structural induction over token trees (converter vs unrolling spec with budget) + numbering arithmetic lemmas + model/implementation correspondence and AST oracle",
         ref="DESIGN.md §5 C02"),
+    'C03': dict(
+        text="Coq theorems for ALL attribute lists and both reverse settings: merge_attributes computes a short merge spec (stable "
+             "de-duplication at the first position, class values joined by single spaces in written order, last value wins / first "
+             "under reverseAttributes, flag rules); decision table of push_attribute over all configs, names, values and flags "
+             "(quotes, braces, boolean expansion/compaction, implied dropped, empty value = tabstop, name mapping); attribute-set "
+             "parsing round trip at token level (_partial: character level and shorthands by correspondence). Independent oracle "
+             "parses the tags of expand() output and applies the rules to the generated mentions.",
+        technique="Coq proof by induction over attribute lists (merge loop vs spec) and case analysis of push_attribute + model/implementation correspondence (output string and full parse tree) and attribute oracle",
+        ref="DESIGN.md §5 C03"),
     'C04': dict(
         text="Coq theorems: text_literal for ALL brace-balanced payloads (tokenize+parse+convert of name{T} gives [unescape T]), "
              "placeholder totality, group brackets, wrap_plain for all trees and texts, wrap text on leaves and (partial: state-purity "
@@ -37,19 +46,50 @@ CHECKS = {
              "whole punctuation alphabet and wrap-line lists.",
         technique="Coq proof by induction over the payload (tokenizer literal scanner with brace depth) and over converted forests + model/implementation correspondence and payload oracle",
         ref="DESIGN.md §5 C04"),
+    'C05': dict(
+        text="Coq theorems about the stylesheet pipeline model: end-to-end value_seq_expand from the STRING (numbers and colours of any "
+             "length with the statement's connectors, +-joined properties, trailing !), hex round trip and short-hex iff (complete "
+             "per-channel sweep), the four hex forms, alpha -> rgba with canonical decimals, unit decision rule, dash rule on the tokenizer "
+             "step, important rule, line shape; every built-in property key satisfies the theorem's hypothesis (sweep). Independent "
+             "oracle re-states the value rules over a product grammar x syntaxes x unit/shortHex options; colour value never changes.",
+        technique="Coq proof (tokenizer/parser/resolver/formatter composition over value sequences, complete finite sweeps for channels and alpha digits) + generated snippet/option tables + in-Coq model evaluation compared with the implementation",
+        ref="DESIGN.md §5 C05",
+        note=NOTE + " Theorems that mention the scorer or the configuration record list the kernel primitives PrimFloat.* / PrimInt63.* under Print Assumptions (declared Primitive, not axioms)."),
+    'C06': dict(
+        text="Coq theorems: keys_reach_self as a COMPLETE vm_compute sweep over every key of the regenerated built-in table (matcher selects "
+             "the key's own snippet, output is its property + first value/tabstop or raw body), keywords_resolve sweep over every "
+             "(snippet, letters-only keyword) in five letter cases, keyword_any_case for all tables, score_case_invariant for all "
+             "strings (PrimFloat, bit-exact), exact_key_wins for all tables, user_overrides, scope filters. One listed finding "
+             "(keywords containing a digit). Oracle over every key/keyword x syntax x scope and random user tables.",
+        technique="Coq proof + complete finite sweeps over the generated snippet table (PrimFloat scorer evaluated by vm_compute) + in-Coq model evaluation compared with the implementation",
+        ref="DESIGN.md §5 C06",
+        note=NOTE + " Theorems that mention the scorer list the kernel primitives PrimFloat.* / PrimInt63.* under Print Assumptions (declared Primitive, not axioms)."),
     'C07': dict(
         text="Coq theorems for the markup model: for ALL abbreviations and ALL configurations with well-formed snippet tables expand_markup "
              "returns Ok or a Scanner/Token parse error with 0 <= pos <= length, never Internal, never OutOfFuel (tokenize_safe, "
              "parser_safe for all token lists, convert_safe, resolve_safe with tight fuel bound, complete sweep of the regenerated "
-             "built-in tables). Stylesheet half, BEM, lorem text and CPython's recursion limit are implementation-oracle only "
-             "(exhaustive short strings, random and mutated abbreviations, random option sets); two listed recursion-limit findings.",
+             "built-in tables); the same for the stylesheet model (C07_css_expand_safe, parser over all token lists with fuel adequacy). "
+             "BEM, lorem text and CPython's recursion limit are implementation-oracle only (exhaustive short strings, random and "
+             "mutated abbreviations, random option sets); two listed recursion-limit findings.",
         technique="Coq proof stage-wise (tokenizer, parser over all token lists, converter, snippet resolution with fuel bound, composition) + complete vm_compute sweep of generated snippet tables + exhaustive short-string outcome-class correspondence",
         ref="DESIGN.md §5 C07"),
+    'C08': dict(
+        text="Coq theorems over a state-machine model of the library state that survives a call (caller text slot, cache dicts, BEM "
+             "default dict), for every history length, every world (pure pipeline parts abstract) and every probe: history_independent, "
+             "every_call_independent, caller_cfg_preserved, cache_transparent, cache_entries_valid (inductive invariant), no_growth; "
+             "one refutation per pre-repair defect switch. Tied to the code by per-call state correspondence and by running the history "
+             "model over the real markup and stylesheet models. Oracle: random histories followed by a probe compared with the same call "
+             "in a fresh interpreter process; caller dict deep-equality; sizes of module containers and function defaults; gc-based "
+             "reachability is support, not proof.",
+        technique="Coq proof of an inductive invariant over fold_left step on a history state machine + model/implementation state correspondence + fresh-interpreter differential oracle",
+        ref="DESIGN.md §5 C08"),
     'C09': dict(
         text="Coq theorems: match/balanced_outward/balanced_inward as folds over scanner events return the innermost element, the "
              "enclosing chain and the first-child chain for every well-nested forest (unbounded), attribute ranges are exact; "
-             "public entry points composed with the scanner model. Scanner-level rendering theorem is partial (correspondence over "
-             "generated documents with ground truth at every position).",
+             "public entry points composed with the scanner model (level A); scan_render: for ALL documents of a text grammar (paired, "
+             "self-closed and void elements, quoted/unquoted/expression attribute values containing > and <, directive and bracketed "
+             "attribute names, comments, CDATA, PIs, doctype, script/style bodies) scan (render d) = events d (level B), composed into "
+             "match/outward/inward and attribute-range theorems on TEXT. Correspondence over generated documents with ground truth at every position.",
         technique="Coq proof by induction over forests with a stack invariant (events fold) + model/implementation correspondence on generated documents with ground truth",
         ref="DESIGN.md §5 C09"),
     'C10': dict(
@@ -67,6 +107,40 @@ CHECKS = {
              "tag proved for abbreviations free of the three listed finding shapes (_partial), with refutation witnesses for those shapes.",
         technique="Coq proof by induction over the backward scan with bracket stack + generated char tables + model/implementation correspondence",
         ref="DESIGN.md §5 C11"),
+    'C12': dict(
+        text="Coq theorems about the HTML formatter model: format_cosmetic (for all trees, two option records differing only in the "
+             "formatting options give equal content: relational induction), level_is_depth and per-element line-break indentation "
+             "(_partial: no single statement over every line-break chunk; push_snippet path), comments_additive (_partial: position "
+             "of the comment not expressed), selfclose_local (_partial: compactBoolean off; refuted with it on = listed finding), "
+             "level_restored. Oracle: same abbreviation under two option sets compared after stripping inter-tag whitespace; "
+             "indentation of every line vs open elements; comments; self-closing styles; html/xml/xsl/jsx/vue/svelte. Two listed findings.",
+        technique="Coq proof by relational induction over the tree (two runs, related streams) and level invariants + callback-event correspondence with the implementation + two-option-set oracle",
+        ref="DESIGN.md §5 C12"),
+    'C13': dict(
+        text="Coq theorems: every stream produced by the HTML and indent formatters is built from the stream primitives (reachability), "
+             "and for every reachable stream every callback event sits at exactly the offset, line and column it reports in the final "
+             "string (callback_positions_exact; any newline string: relative to the stream's own line ends); tabstops_in_order for "
+             "trees without explicit fields (HTML and haml/pug/slim), explicit fields keep relative order and are disjoint across values, "
+             "field counter monotone. Stylesheet formatter: covered by the stream theorem and the oracle. Oracle checks every callback "
+             "invocation against the final string (markup and stylesheet syntaxes, \n / \r\n / custom newlines, indent, baseIndent).",
+        technique="Coq proof of a stream-position invariant over all operation sequences + reachability of formatter streams by induction over the tree + callback-event correspondence and position oracle",
+        ref="DESIGN.md §5 C13"),
+    'C14': dict(
+        text="Coq theorems: snippet resolution never runs out of fuel with the fuel markup_parse supplies (pigeonhole on the duplicate-free "
+             "stack), nesting depth <= |snippets|, for ALL tables incl. self-referencing and mutually recursive ones; alias_merge on "
+             "the pure model for all tables and decorations; alias = definition as a COMPLETE vm_compute sweep over every key of the "
+             "regenerated html/xsl/pug tables in four forms (alone, repeated under a parent, with extra attributes, with a child). "
+             "Oracle: expand(alias form) == expand(definition-in-place form), random user tables with cycles (termination, depth).",
+        technique="Coq proof (fuel bound by pigeonhole over the resolution stack, merge equations) + complete finite sweep over generated snippet tables + model/implementation correspondence",
+        ref="DESIGN.md §5 C14"),
+    'C15': dict(
+        text="Coq theorems for ALL forests (names/attributes free of CR/LF, arbitrary multi-line values), all option and punctuation "
+             "records: the output of the indent formatter equals the join of node_lines (indent^depth ++ head ++ inline value, text "
+             "lines and children one level deeper; div omitted iff id/class present), for haml/slim/pug and end to end through "
+             "expand_markup_str; multi-line text layout; format_events for the HTML formatter and same-tree theorem (the depth list "
+             "recovered from indentation equals the nesting of the HTML tag chunks). Extracted SPEC compared with the implementation.",
+        technique="Coq proof by induction over the tree with stream value/level lemmas (indent and HTML formatters) + extracted spec and model compared with the implementation + AST oracle",
+        ref="DESIGN.md §5 C15"),
     'C16': dict(
         text="Coq theorems for ALL strings and positions (Z): HTML and CSS scanner events are well-formed ranges inside the source, "
              "ordered; tag ranges start with < and end with >; folds (match/outward/inward) well-formed, match = head of outward, strict "
